@@ -102,3 +102,20 @@ Theorem C14_withdrawn_bits_are_source_bits :
         In (off, ports, clr) gd_write_arms -> clr <> 0 -> isr (duart_write_byte off v d) = clr8 (isr d) clr).
 Proof. split; [exact read_arm_isr | exact write_arm_isr]. Qed.
 Print Assumptions C14_withdrawn_bits_are_source_bits.
+
+(* every status / configuration / command / interrupt-status / interrupt-vector bit and every command code the model and
+   these theorems use is the constant of that name in /repo/src/duart.rs (translated on every run) *)
+Theorem C14_constants_are_source_constants :
+  (CNF_ETX, CNF_ERX) = (gd_CNF_ETX, gd_CNF_ERX)
+  /\ (STS_RXR, STS_FFL, STS_TXR, STS_TXE, STS_OER, STS_PER, STS_FER, STS_RXB)
+     = (gd_STS_RXR, gd_STS_FFL, gd_STS_TXR, gd_STS_TXE, gd_STS_OER, gd_STS_PER, gd_STS_FER, gd_STS_RXB)
+  /\ (CMD_ERX, CMD_DRX, CMD_ETX, CMD_DTX) = (gd_CMD_ERX, gd_CMD_DRX, gd_CMD_ETX, gd_CMD_DTX)
+  /\ (ISTS_TAI, ISTS_RAI, ISTS_DBA, ISTS_TBI, ISTS_RBI, ISTS_DBB, ISTS_IPC)
+     = (gd_ISTS_TAI, gd_ISTS_RAI, gd_ISTS_DBA, gd_ISTS_TBI, gd_ISTS_RBI, gd_ISTS_DBB, gd_ISTS_IPC)
+  /\ (KEYBOARD_INT, MOUSE_BLANK_INT, TX_INT, RX_INT) = (gd_KEYBOARD_INT, gd_MOUSE_BLANK_INT, gd_TX_INT, gd_RX_INT)
+  /\ (forall c, is_reset_rx c = (Z.land (Z.shiftr c 4) 7 =? gd_CR_RST_RX))
+  /\ (forall c, is_reset_tx c = (Z.land (Z.shiftr c 4) 7 =? gd_CR_RST_TX))
+  /\ (forall c, is_reset_err c = (Z.land (Z.shiftr c 4) 7 =? gd_CR_RST_ERR))
+  /\ (gd_CR_RST_MR, gd_CR_RST_BRK, gd_CR_START_BRK, gd_CR_STOP_BRK) = (1, 5, 6, 7).
+Proof. exact duart_constants_are_source_constants. Qed.
+Print Assumptions C14_constants_are_source_constants.
